@@ -162,7 +162,10 @@ Fixpoint last_ecs (l : list eopt) : option ecs :=
 Definition is_ecs (o : eopt) : bool := match o with OEcs _ => true | OOther _ => false end.
 Definition has_ecs (l : list eopt) : bool := existsb is_ecs l.
 
-(* ecs.ReadResponseScope; the argument is the option list of the response's OPT (None: no OPT) *)
+(* ecs.ReadResponseScope; the argument is the option list of the response's OPT (None: no OPT).
+   A SCOPE longer than the family's addresses is read as the whole address (bits > addr.BitLen()
+   => bits = addr.BitLen()); ClampScope then cuts it down like any SCOPE > SOURCE. *)
+Definition scope_bits (a : addr) (scope : N) : N := N.min scope (awidth (a_is4 a)).
 Definition read_response_scope (opts : option (list eopt)) : option pfx :=
   match opts with
   | None => None
@@ -174,11 +177,30 @@ Definition read_response_scope (opts : option (list eopt)) : option pfx :=
           match ip_to_addr (e_addr sub) with
           | None => None
           | Some a =>
-              if e_family sub =? family_v4 then (if a_is4 a then addr_prefix a (e_scope sub) else None)
-              else if e_family sub =? family_v6 then (if negb (a_is4 a) then addr_prefix a (e_scope sub) else None)
+              if e_family sub =? family_v4 then (if a_is4 a then addr_prefix a (scope_bits a (e_scope sub)) else None)
+              else if e_family sub =? family_v6 then (if negb (a_is4 a) then addr_prefix a (scope_bits a (e_scope sub)) else None)
               else None
           end
       end
+  end.
+
+(* ecs.DeclaresScope: the first subnet option of the response's OPT carries a non-zero SCOPE,
+   usable or not *)
+Definition declares_scope (opts : option (list eopt)) : bool :=
+  match opts with
+  | Some l => match first_ecs l with Some sub => negb (e_scope sub =? 0) | None => false end
+  | None => false
+  end.
+
+(* the scope branch of cache.ResponseWriter.WriteMsg (entered with a valid request scope [cs]): the
+   prefix the answer is taken to be tailored to, before ClampScope.  A usable SCOPE: the declared
+   prefix.  A non-zero SCOPE that cannot be interpreted (family and address disagree, unknown family,
+   unusable address): the audience that asked, i.e. the forwarded prefix itself
+   (ClampScope(clientScope, clientScope)).  None: the authority said "everyone". *)
+Definition response_audience (opts : option (list eopt)) (cs : option pfx) : option pfx :=
+  match read_response_scope opts with
+  | Some rs => Some rs
+  | None => if declares_scope opts then cs else None
   end.
 
 (* Policy.ClampScope *)
@@ -305,7 +327,8 @@ Definition normalize_scope (s : option pfx) : option pfx :=
   end.
 
 (* one stored answer.  ce_auth and ce_src are ghost state for the theorems: the scope the
-   authority declared for the answer held (None: none / SCOPE 0) and the request scope of the query
+   authority declared for the answer held (None: none / SCOPE 0; a non-zero SCOPE nobody can interpret:
+   the forwarded prefix, see response_audience) and the request scope of the query
    that fetched it (None: no subnet option went upstream).  No model function reads them. *)
 Record centry := mk_centry {
   ce_q : N; ce_cd : bool; ce_scope : option pfx; ce_ttl : Z; ce_ans : N; ce_auth : option pfx; ce_src : option pfx }.
@@ -411,7 +434,7 @@ Definition serve (c : ccfg) (st : store) (qy : query) (up : uresp) (aged : bool)
         (st_insert st e', mk_obs k (ce_ans e) None None (Some (first_ecs fw2)))
       else (st, mk_obs k (ce_ans e) None None None)
   | None =>
-      let auth := read_response_scope (u_opts up) in
+      let auth := response_audience (u_opts up) cs in
       let sc := match cs with
                 | Some _ => match auth with
                             | Some rs => normalize_scope (clamp_scope pol (Some rs) cs)
